@@ -83,6 +83,11 @@ type serverConn struct {
 	// channel.
 	writeStop chan struct{}
 
+	// writeDone is closed when the write loop has returned, which it also does
+	// on its own when a write fails. Nothing takes frames off writer after
+	// that.
+	writeDone chan struct{}
+
 	// handlerDone carries a stream back to the stream loop once its handler has
 	// returned. Handlers run on their own goroutines so that a slow request
 	// does not hold up the other streams on the connection, but everything the
@@ -143,6 +148,7 @@ func (sc *serverConn) Handshake() error {
 func (sc *serverConn) Serve() error {
 	sc.closer = make(chan struct{}, 1)
 	sc.writeStop = make(chan struct{})
+	sc.writeDone = make(chan struct{})
 	sc.handlerDone = make(chan *Stream, 128)
 	sc.handlerStop = make(chan struct{})
 	// Created disarmed. time.NewTimer(0) fires at once, and with no read
@@ -177,7 +183,7 @@ func (sc *serverConn) Serve() error {
 	}()
 
 	// writeDone lets the teardown wait for queued frames to reach the socket.
-	writeDone := make(chan struct{})
+	writeDone := sc.writeDone
 
 	go func() {
 		defer close(writeDone)
@@ -1652,6 +1658,8 @@ func (sc *serverConn) write(fr *FrameHeader) {
 	select {
 	case sc.writer <- fr:
 	case <-sc.writeStop:
+		ReleaseFrameHeader(fr)
+	case <-sc.writeDone:
 		ReleaseFrameHeader(fr)
 	}
 }
